@@ -62,7 +62,7 @@ def _on_path(h):
             nn[out.note] = nn.get(out.note, 0) + 1
         if out.kind == "exc":
             # unexpected exception on an input satisfying the premise: candidate violation
-            m = core.nice_model(ctx, [], out.inputs)
+            m = core.nice_model(ctx, [], out.inputs, out.prefer)
             if m is None:
                 raise Abort("infeasible")
             return dict(harness=h.name, real=h.real, cfg=h.cfg, failed=["exception:" + (out.note or "")],
@@ -75,7 +75,7 @@ def _on_path(h):
             r = ctx.check(z3.Not(conj))
             if r == z3.sat:
                 failed = []
-                m = core.nice_model(ctx, [z3.Not(conj)], out.inputs)
+                m = core.nice_model(ctx, [z3.Not(conj)], out.inputs, out.prefer)
                 for n, p in out.props:
                     if not z3.is_true(m.eval(p, model_completion=True)):
                         failed.append(n)
